@@ -10,6 +10,14 @@
 #include <stdio.h>
 #include <assert.h>
 
+/* An index outside [0, length) stops the program.  What the program printed before must still reach stdout:
+ * abort() (behind assert) does not flush stdio, so flush first -- as the array_pop path of the transpiler does. */
+#define DYN_ARRAY_CHECK_INDEX(arr, index) \
+    do { \
+        if (!((index) >= 0 && (index) < (arr)->length)) fflush(stdout); \
+        assert((index) >= 0 && (index) < (arr)->length && "DynArray: Index out of bounds"); \
+    } while (0)
+
 /* Dynamic array configuration */
 #define INITIAL_CAPACITY 8
 #define GROWTH_FACTOR 2
@@ -304,7 +312,7 @@ DynArray* dyn_array_pop_array(DynArray* arr, bool* success) {
 int64_t dyn_array_get_int(DynArray* arr, int64_t index) {
     assert(arr != NULL && "DynArray: NULL array");
     assert(arr->elem_type == ELEM_INT && "DynArray: Type mismatch");
-    assert(index >= 0 && index < arr->length && "DynArray: Index out of bounds");
+    DYN_ARRAY_CHECK_INDEX(arr, index);
     
     return ((int64_t*)arr->data)[index];
 }
@@ -313,7 +321,7 @@ int64_t dyn_array_get_int(DynArray* arr, int64_t index) {
 uint8_t dyn_array_get_u8(DynArray* arr, int64_t index) {
     assert(arr != NULL && "DynArray: NULL array");
     assert(arr->elem_type == ELEM_U8 && "DynArray: Type mismatch");
-    assert(index >= 0 && index < arr->length && "DynArray: Index out of bounds");
+    DYN_ARRAY_CHECK_INDEX(arr, index);
 
     return ((uint8_t*)arr->data)[index];
 }
@@ -322,7 +330,7 @@ uint8_t dyn_array_get_u8(DynArray* arr, int64_t index) {
 double dyn_array_get_float(DynArray* arr, int64_t index) {
     assert(arr != NULL && "DynArray: NULL array");
     assert(arr->elem_type == ELEM_FLOAT && "DynArray: Type mismatch");
-    assert(index >= 0 && index < arr->length && "DynArray: Index out of bounds");
+    DYN_ARRAY_CHECK_INDEX(arr, index);
     
     return ((double*)arr->data)[index];
 }
@@ -331,7 +339,7 @@ double dyn_array_get_float(DynArray* arr, int64_t index) {
 bool dyn_array_get_bool(DynArray* arr, int64_t index) {
     assert(arr != NULL && "DynArray: NULL array");
     assert(arr->elem_type == ELEM_BOOL && "DynArray: Type mismatch");
-    assert(index >= 0 && index < arr->length && "DynArray: Index out of bounds");
+    DYN_ARRAY_CHECK_INDEX(arr, index);
     
     return ((bool*)arr->data)[index];
 }
@@ -340,7 +348,7 @@ bool dyn_array_get_bool(DynArray* arr, int64_t index) {
 char* dyn_array_get_string(DynArray* arr, int64_t index) {
     assert(arr != NULL && "DynArray: NULL array");
     assert(arr->elem_type == ELEM_STRING && "DynArray: Type mismatch");
-    assert(index >= 0 && index < arr->length && "DynArray: Index out of bounds");
+    DYN_ARRAY_CHECK_INDEX(arr, index);
 
     return (char*)((const char**)arr->data)[index];
 }
@@ -348,7 +356,7 @@ char* dyn_array_get_string(DynArray* arr, int64_t index) {
 DynArray* dyn_array_get_array(DynArray* arr, int64_t index) {
     assert(arr != NULL && "DynArray: NULL array");
     assert(arr->elem_type == ELEM_ARRAY && "DynArray: Type mismatch");
-    assert(index >= 0 && index < arr->length && "DynArray: Index out of bounds");
+    DYN_ARRAY_CHECK_INDEX(arr, index);
     
     return ((DynArray**)arr->data)[index];
 }
@@ -357,7 +365,7 @@ DynArray* dyn_array_get_array(DynArray* arr, int64_t index) {
 void dyn_array_set_int(DynArray* arr, int64_t index, int64_t value) {
     assert(arr != NULL && "DynArray: NULL array");
     assert(arr->elem_type == ELEM_INT && "DynArray: Type mismatch");
-    assert(index >= 0 && index < arr->length && "DynArray: Index out of bounds");
+    DYN_ARRAY_CHECK_INDEX(arr, index);
     
     ((int64_t*)arr->data)[index] = value;
 }
@@ -366,7 +374,7 @@ void dyn_array_set_int(DynArray* arr, int64_t index, int64_t value) {
 void dyn_array_set_u8(DynArray* arr, int64_t index, uint8_t value) {
     assert(arr != NULL && "DynArray: NULL array");
     assert(arr->elem_type == ELEM_U8 && "DynArray: Type mismatch");
-    assert(index >= 0 && index < arr->length && "DynArray: Index out of bounds");
+    DYN_ARRAY_CHECK_INDEX(arr, index);
 
     ((uint8_t*)arr->data)[index] = value;
 }
@@ -375,7 +383,7 @@ void dyn_array_set_u8(DynArray* arr, int64_t index, uint8_t value) {
 void dyn_array_set_float(DynArray* arr, int64_t index, double value) {
     assert(arr != NULL && "DynArray: NULL array");
     assert(arr->elem_type == ELEM_FLOAT && "DynArray: Type mismatch");
-    assert(index >= 0 && index < arr->length && "DynArray: Index out of bounds");
+    DYN_ARRAY_CHECK_INDEX(arr, index);
     
     ((double*)arr->data)[index] = value;
 }
@@ -384,7 +392,7 @@ void dyn_array_set_float(DynArray* arr, int64_t index, double value) {
 void dyn_array_set_bool(DynArray* arr, int64_t index, bool value) {
     assert(arr != NULL && "DynArray: NULL array");
     assert(arr->elem_type == ELEM_BOOL && "DynArray: Type mismatch");
-    assert(index >= 0 && index < arr->length && "DynArray: Index out of bounds");
+    DYN_ARRAY_CHECK_INDEX(arr, index);
     
     ((bool*)arr->data)[index] = value;
 }
@@ -393,7 +401,7 @@ void dyn_array_set_bool(DynArray* arr, int64_t index, bool value) {
 void dyn_array_set_string(DynArray* arr, int64_t index, const char* value) {
     assert(arr != NULL && "DynArray: NULL array");
     assert(arr->elem_type == ELEM_STRING && "DynArray: Type mismatch");
-    assert(index >= 0 && index < arr->length && "DynArray: Index out of bounds");
+    DYN_ARRAY_CHECK_INDEX(arr, index);
     
     ((const char**)arr->data)[index] = value;
 }
@@ -401,7 +409,7 @@ void dyn_array_set_string(DynArray* arr, int64_t index, const char* value) {
 void dyn_array_set_array(DynArray* arr, int64_t index, DynArray* value) {
     assert(arr != NULL && "DynArray: NULL array");
     assert(arr->elem_type == ELEM_ARRAY && "DynArray: Type mismatch");
-    assert(index >= 0 && index < arr->length && "DynArray: Index out of bounds");
+    DYN_ARRAY_CHECK_INDEX(arr, index);
     
     ((DynArray**)arr->data)[index] = value;
 }
@@ -409,7 +417,7 @@ void dyn_array_set_array(DynArray* arr, int64_t index, DynArray* value) {
 /* Remove element at index */
 DynArray* dyn_array_remove_at(DynArray* arr, int64_t index) {
     assert(arr != NULL && "DynArray: NULL array");
-    assert(index >= 0 && index < arr->length && "DynArray: Index out of bounds");
+    DYN_ARRAY_CHECK_INDEX(arr, index);
     
     /* Shift elements down */
     if (index < arr->length - 1) {
